@@ -7,7 +7,7 @@ use proptest::prelude::*;
 use serde::{Deserialize, Serialize};
 
 use super::{
-    twin::*,
+    twin::{self, *},
     twingen,
     twinref::{self, *},
     PropDef,
@@ -338,13 +338,57 @@ fn judge_args(printed: &[PNode], refs: &[RNode], attr: u8, reverse: bool, intere
 }
 
 pub fn check_tree(c: &TreeCase) -> Verdict {
+    let class = format!("attr={}", c.attr);
+    judge_tree_runs(c, &class, |action, reverse| {
+        let cfg = RunCfg { action: action.into(), sort: c.attr, reverse, ignored: 2, ..RunCfg::default() };
+        run_in_process(&c.spec, &cfg)
+    })
+}
+
+/// The same through the command line and the environment: `--sort` / `--sortr`,
+/// `DIVAN_SORT` / `DIVAN_SORTR`, and a flag over the environment variable of
+/// the same option (parsed by the real `clap` command in this process).
+#[derive(Clone, Debug, Serialize, Deserialize)]
+pub struct TreeCliCase {
+    pub tree: TreeCase,
+    /// 0 = flag, 1 = environment variable, 2 = flag over a differing environment variable of the same option.
+    pub route: u8,
+    pub other_attr: u8,
+}
+
+const ATTR_NAMES: [&str; 3] = ["kind", "name", "location"];
+
+pub fn check_tree_cli(c: &TreeCliCase) -> Verdict {
+    let attr = ATTR_NAMES[c.tree.attr as usize % 3];
+    let other = ATTR_NAMES[c.other_attr as usize % 3];
+    let class = format!("route={} attr={}", c.route, c.tree.attr);
+    judge_tree_runs(&c.tree, &class, |action, reverse| {
+        let (flag, var) = if reverse { ("--sortr", "DIVAN_SORTR") } else { ("--sort", "DIVAN_SORT") };
+        let mut args: Vec<String> = vec![if action == "list" { "--list".into() } else { "--test".into() }, "--include-ignored".into()];
+        let mut env: Vec<(String, String)> = Vec::new();
+        match c.route {
+            0 => args.extend([flag.to_string(), attr.to_string()]),
+            1 => env.push((var.to_string(), attr.to_string())),
+            _ => {
+                env.push((var.to_string(), other.to_string()));
+                args.extend([flag.to_string(), attr.to_string()]);
+            }
+        }
+        let (run, code, stderr) = twin::with_cli_in_process(|| twin::run_child(&c.tree.spec, &args, &env, "c16"))?;
+        if code != 0 && run.panic.is_none() {
+            return Err(format!("exit code {code} for {args:?} {env:?}: {stderr}"));
+        }
+        Ok(run)
+    })
+}
+
+fn judge_tree_runs(c: &TreeCase, class: &str, run: impl Fn(&str, bool) -> Result<twin::TwinRun, String>) -> Verdict {
     let tree = twinref::build(&c.spec);
     let mut shown_both: Vec<Vec<PNode>> = Vec::new();
     let mut interesting = false;
     let mut strict = true;
     for reverse in [false, true] {
-        let cfg = RunCfg { action: "list".into(), sort: c.attr, reverse, ignored: 2, ..RunCfg::default() };
-        let list = match run_in_process(&c.spec, &cfg) {
+        let list = match run("list", reverse) {
             Ok(r) => r,
             Err(e) => return Verdict::Inconclusive(e),
         };
@@ -359,8 +403,7 @@ pub fn check_tree(c: &TreeCase) -> Verdict {
             return Verdict::fail(sig, format!("{msg}\n{}", list.stdout));
         }
         // Arguments (shown by a test run).
-        let cfg = RunCfg { action: "test".into(), ..cfg };
-        let test = match run_in_process(&c.spec, &cfg) {
+        let test = match run("test", reverse) {
             Ok(r) => r,
             Err(e) => return Verdict::Inconclusive(e),
         };
@@ -383,7 +426,7 @@ pub fn check_tree(c: &TreeCase) -> Verdict {
         }
         vensure!(reversed(&shown_both[0]) == shown_both[1], "sortr-not-reverse", "--sortr is not the exact reverse of --sort for attribute {}", c.attr);
     }
-    classify(format!("attr={}", c.attr));
+    classify(class.to_string());
     Verdict::pass(interesting)
 }
 
@@ -409,4 +452,11 @@ fn groups(g: &mut Groups) {
         check_args,
     );
     g.prop("tree", 3_000, 150_000, || (twingen::spec_with(0.1), 0u8..=2).prop_map(|(spec, attr)| TreeCase { spec, attr }), check_tree);
+    g.prop(
+        "tree_cli",
+        3_000,
+        150_000,
+        || (twingen::spec_with(0.1), 0u8..=2, 0u8..=2, 1u8..=2).prop_map(|(spec, attr, route, d)| TreeCliCase { tree: TreeCase { spec, attr }, route, other_attr: (attr + d) % 3 }),
+        check_tree_cli,
+    );
 }
